@@ -487,8 +487,13 @@ func (lb *LoadBalancer) AddBackend(backendCfg config.BackendConfig) error {
 		ExpectContinueTimeout: 1 * time.Second,
 
 		// Performance optimizations
-		ForceAttemptHTTP2:  true,  // Use HTTP/2 when available
-		DisableCompression: false, // Let backend handle compression
+		ForceAttemptHTTP2: true, // Use HTTP/2 when available
+		// A proxy must pass Accept-Encoding and Content-Encoding through
+		// untouched. With DisableCompression false the transport adds
+		// "Accept-Encoding: gzip" to requests that have none and transparently
+		// decompresses the answer, so the backend sees a header the client never
+		// sent and the client gets a re-coded body without Content-Length.
+		DisableCompression: true,
 	}
 
 	proxy.Transport = transport
